@@ -168,6 +168,22 @@ func c02Depth(p *load.Prog, r *oblig.Run, dec *ssa.Function, header *ssa.BasicBl
 		r.Add("R02.f", "stack", p.Pos(dec.Pos()), "anchor").Unknown("no Nodes-typed loop variable (stack of open nodes) in Decode")
 		return
 	}
+	// base case: before the first line no node is open - the stack enters the loop with length 0 (a stack that starts
+	// with nil entries hands a nil parent to the first non-root line)
+	for i, e := range stackPhi.Edges {
+		pred := header.Preds[i]
+		if header.Dominates(pred) {
+			continue // back edge
+		}
+		ob := r.Add("R02.f", "initial stack", p.Pos(stackPhi.Pos()), "length of the stack of open nodes before the first line")
+		if n, ok := staticSliceLen(e); !ok {
+			ob.Unknown("cannot determine the length of the initial stack of open nodes")
+		} else if n != 0 {
+			ob.Fail(fmt.Sprintf("the stack of open nodes starts with %d (nil) entries instead of none: the indent guard and the missing-parent test see open nodes that do not exist, and a first line above level 0 is attached to a nil parent", n))
+		} else {
+			ob.OK("empty")
+		}
+	}
 	n := 0
 	for _, path := range paths {
 		if path[len(path)-1] != header {
@@ -511,4 +527,42 @@ func c02TrimOnlyEnds(p *load.Prog, r *oblig.Run) {
 	default:
 		o.OK("strings trimming functions applied to the node's own value")
 	}
+}
+
+// staticSliceLen: the length of a slice value that is a nil constant, a
+// composite literal, or a make with a constant length.
+func staticSliceLen(v ssa.Value) (int64, bool) {
+	switch x := v.(type) {
+	case *ssa.Const:
+		if x.Value == nil {
+			return 0, true
+		}
+	case *ssa.MakeSlice:
+		return su.ConstInt(x.Len)
+	case *ssa.Slice:
+		// a composite literal (arr[:]) or a make with constant bounds (arr[:n])
+		if al, ok := x.X.(*ssa.Alloc); ok {
+			if at, ok := al.Type().(*types.Pointer).Elem().Underlying().(*types.Array); ok {
+				lo, hi := int64(0), at.Len()
+				if x.Low != nil {
+					k, isK := su.ConstInt(x.Low)
+					if !isK {
+						return 0, false
+					}
+					lo = k
+				}
+				if x.High != nil {
+					k, isK := su.ConstInt(x.High)
+					if !isK {
+						return 0, false
+					}
+					hi = k
+				}
+				return hi - lo, true
+			}
+		}
+	case *ssa.ChangeType:
+		return staticSliceLen(x.X)
+	}
+	return 0, false
 }
